@@ -116,10 +116,10 @@ def run_jobs(jobs, ncpu=NCPU):
         return pool.map(_worker, jobs, chunksize=1)
 
 
-def replay(module, fn, call, timeout=300, extra_env=None):
+def replay(module, fn, call, ctx=None, timeout=300, extra_env=None):
     """Re-run a counterexample concretely against the real environment in a fresh
     process.  Returns dict(outcome=pass|fail|exception|timeout, detail=...)."""
-    payload = json.dumps({"module": module, "fn": fn, "call": call})
+    payload = json.dumps({"module": module, "fn": fn, "call": call, "ctx": ctx or {}})
     env = dict(os.environ)
     env["VF_MODE"] = "real"
     env["PYTHONPATH"] = f"/repo:{ROOT}" + (":" + env["PYTHONPATH"] if env.get("PYTHONPATH") else "")
